@@ -328,6 +328,12 @@ inputs:
       path: '%(verif)s/corpus/c13/shapes.json'
       package: shapes
   - cue:
+      entrypoint: '%(verif)s/corpus/cue/common'
+  - cue:
+      entrypoint: '%(verif)s/corpus/cue/panel'
+      cue_imports:
+        - '%(verif)s/corpus/cue/common:verif.example/common'
+  - cue:
       entrypoint: '%(repo)s/testdata/schemas/validation'
   - cue:
       entrypoint: '%(repo)s/testdata/schemas/equality'
@@ -405,6 +411,7 @@ def _c08_runs(ctx):
                      ["VerifC08Validate", "VerifC08StrictChild", "VerifC08StrictTop", "VerifC08StrictRoot"]),
             _gen_run(ctx, "validation", "validation", [("validation/zz_verif_c08.go", "harness/gen/validation/zz_verif_c08.go")], ["VerifC08ValidateDashboard"]),
             _gen_run(ctx, "shapes", "shapes", [("shapes/zz_verif_c08.go", "harness/gen/shapes/zz_verif_c08.go")], ["VerifC08ValidateShapes"]),
+            _gen_run(ctx, "crosspackage", "panel", [("panel/zz_verif_c08.go", "harness/gen/panel/zz_verif_c08.go")], ["VerifC08CrossPackage"]),
             _gen_run(ctx, "aliases", "aliases", [("aliases/zz_verif_c08.go", "harness/gen/aliases/zz_verif_c08.go")], ["VerifC08AliasValidate", "VerifC08AliasStrict"])]
 
 PROPERTIES["C08"] = {
@@ -433,7 +440,7 @@ def _c13_prepare(tmp, tier):
     os.makedirs(hdir, exist_ok=True)
     lst = os.path.join(tmp, "c13_entries.txt")
     subprocess.run([os.path.join(drv.BUILD, "symgo"), "-dir", ctx["gen"], "-gen-equals", hdir, "-gen-list", lst, "-modpath", "verifgen",
-                    "-pkgs", "./equality,./constraints,./validation,./defaults,./widgets,./shapes,./aliases" + (",./slots" if os.path.isdir(os.path.join(ctx["gen"], "slots")) else "")], check=True, env=drv.ENV)
+                    "-pkgs", "./equality,./constraints,./validation,./defaults,./widgets,./shapes,./aliases,./panel,./common" + (",./slots" if os.path.isdir(os.path.join(ctx["gen"], "slots")) else "")], check=True, env=drv.ENV)
     ctx["c13h"] = hdir
     ctx["c13"] = {}
     for l in open(lst):
